@@ -24,7 +24,8 @@ def clauses(prefix, xs):
 
 
 class LoopSpec:
-    def __init__(self, inv=(), decreases=None, rest=None, done=None, modifies=None, ghost_head=(), ghost_back=()):
+    def __init__(self, inv=(), decreases=None, rest=None, done=None, modifies=None, ghost_head=(), ghost_back=(), forall=None):
+        self.forall = forall or {}    # universally quantified ghost variables of the invariant clauses {name: sort}
         self.inv = clauses('I', inv)
         self.decreases = [Clause('D%d' % i, d) for i, d in enumerate(decreases or [])]
         self.rest = rest          # name under which a for-loop's remaining items are visible
@@ -40,7 +41,7 @@ class FnContract:
     def __init__(self, cset, qualname, params, returns=None, requires=(), ensures=(), raises=None,
                  loops=None, modifies=(), ghost=None, serves=(), forall=None, yields=None,
                  ensures_raise=(), fnparams=None, locals_=None, trusted=False, note='', decreases=None,
-                 ghost_at=None, pure=False, old=()):
+                 ghost_at=None, pure=False, old=(), defines=()):
         self.cset = cset
         self.qualname = qualname
         self.params = params              # {param name: sort name}  (order = declaration order in source)
@@ -61,6 +62,9 @@ class FnContract:
         self.note = note
         self.decreases = [Clause('D%d' % i, d) for i, d in enumerate(decreases or [])]
         self.ghost_at = ghost_at or {}    # {anchor: [ghost statement source]}
+        # definitional clauses: they introduce a spec-level NAME for what the function returns (`result == norm(doc)`);
+        # assumed at call sites, not an obligation of the body (there is nothing to prove: it is the definition of the name)
+        self.defines = clauses('DEF', defines)
         self.pure = pure
         self.old = list(old)
 
